@@ -17,8 +17,15 @@ model: who holds the session's lock when a mutating / destructive file operation
 version of the file each actor loaded, and whether a dump or an unlink destroys a version the
 actor has not seen.
 
-case = {'kind': 'fsched', 'n': 2|3, 'file': None | [counter, exp], 'sched': [tok…]}
-tokens '<i>' | 'S' | 'K<d>'; clock unit = 30 s, session timeout 1 min = 2 units.
+case = {'kind': 'fsched', 'n': 2|3, 'file': None | [counter, exp], 'sched': [tok…], 'lt': [bool…]}
+tokens '<i>' | 'S' | 'K<d>' | 'X<i>' (request i, configured with `lock_timeout`, is waiting for the lock
+and its LockChecker timer expires: the real polling loop runs Timeout -> sleep -> expired() -> LockTimeout)
+| 'P<i>' (one unsuccessful poll: Timeout -> sleep -> next attempt); clock unit = 30 s, session timeout
+1 min = 2 units.
+
+Compared with the model by trace inclusion modulo stuttering (see c13_ramn.py): after every turn the
+observation (lock holder, content of the data file read back from disk, lost flag, status of every
+request, crashed flag / number of sweeps of the sweeper) is recorded, never a program counter.
 """
 from __future__ import annotations
 
@@ -135,17 +142,31 @@ class _TimeShim:
         return getattr(_time, name)
 
 
-REQ_PC = {'exists': 'init', 'lock.acquire': 'acq', 'open.r': 'openr', 'pickle.load': 'load',
-          'open.w': 'trunc', 'pickle.dump': 'dump', 'lock.release': 'rel'}
-SWEEP_PC = {'start': 'list', 'sweep.start': 'list', 'listdir': 'list', 'lock.acquire': 'acq',
-            'open.r': 'openr', 'pickle.load': 'load', 'unlink': 'unlink', 'lock.release': 'rel'}
+class _LockingClock:
+    """`cherrypy.lib.locking.datetime`: the LockChecker timer of a request is past once the harness says so."""
+
+    def __init__(self, run):
+        outer = run
+
+        class datetime(_dt.datetime):
+            @classmethod
+            def now(cls, tz=None):
+                base = _dt.datetime(2030, 1, 1, tzinfo=tz)
+                return base + _dt.timedelta(days=1 if outer.timer_expired.get(outer.me()) else 0)
+        self.datetime = datetime
+        self.timedelta = _dt.timedelta
+        self.timezone = _dt.timezone
 
 
 class FileRun:
-    def __init__(self, n, file0):
-        from cherrypy.lib import sessions
+    def __init__(self, n, file0, lt=None):
+        from cherrypy.lib import sessions, locking
         self.sessions = sessions
+        self.locking = locking
         self.n = n
+        self.lt = list(lt or []) + [False] * n
+        self.timer_expired = {}
+        self.sweeps = 0
         self.tmp = tempfile.mkdtemp(prefix='c13s-')
         self.datafile = _os.path.join(self.tmp, 'session-' + SID)
         self.lockpath = self.datafile + '.lock'
@@ -163,6 +184,8 @@ class FileRun:
         sessions.pickle = _PickleShim(self)
         sessions.time = _TimeShim(self)
         sessions.datetime = self.clock
+        self.saved_locking_datetime = locking.datetime
+        locking.datetime = _LockingClock(self)
         # oracle bookkeeping
         self._fs_cache = None
         self.version = 0
@@ -171,6 +194,7 @@ class FileRun:
         self.lost_why = None
         self.saves = 0
         self.unlocked_ops = []
+        self.timeout_leak = []
         self.max_occ = 0
         self.errors = {}
         self.sweeper_obj = sessions.FileSession(id=None, storage_path=self.tmp, timeout=1, clean_freq=0)
@@ -231,10 +255,17 @@ class FileRun:
         FS = self.sessions.FileSession
 
         def body():
-            s = FS(id=SID, storage_path=self.tmp, timeout=1, clean_freq=0)
+            kw = {'lock_timeout': 5} if self.lt[i] else {}
+            s = FS(id=SID, storage_path=self.tmp, timeout=1, clean_freq=0, **kw)
             if s.id != SID:
                 return 'gone'
-            s.acquire_lock()
+            try:
+                s.acquire_lock()
+            except self.locking.LockTimeout:
+                h = self.holders.get(self.lockpath)
+                if s.locked or (h and h[0] == 'r%d' % i):
+                    self.timeout_leak.append('r%d' % i)
+                return 'failed'
             v = s.get('n', 0)
             s['n'] = v + 1
             s.save()
@@ -245,18 +276,64 @@ class FileRun:
         s = self.sweeper_obj
         while True:
             self.sched.yield_point(('sweep.start', None))
+            self.sweeps += 1
             s.clean_up()
 
     # ---- controller ----------------------------------------------------------------------------------
+    def label(self, op):
+        if op is None:
+            return '-'
+        k = op[0]
+        if k.startswith('lock.'):
+            return '1.0'
+        if k == 'listdir':
+            return '2.0'
+        if k in ('exists', 'open.r', 'open.w', 'pickle.load', 'pickle.dump', 'unlink', 'replace'):
+            return '0.0'
+        return '-'
+
+    def waiting(self, name):
+        """parked in front of an acquire of the session lock that somebody else holds"""
+        st = self.sched.threads[name]
+        if st.status == 'done' or st.pending[0] != 'lock.acquire':
+            return False
+        h = self.holders.get(self.lockpath)
+        return h is not None and h[0] != name
+
+    def poll(self, i, expire):
+        """Run the real polling loop of request i once while the lock is held by somebody else:
+        acquire -> Timeout -> sleep -> checker.expired() [-> LockTimeout when `expire`].
+        Returns False when the token does not apply (nothing was executed)."""
+        name = 'r%d' % i
+        if not self.waiting(name) or (expire and not self.lt[i]):
+            return False
+        if expire:
+            self.timer_expired[name] = True
+        st = self.sched.threads[name]
+        self.sched.step(name, force=True)                 # the attempt fails: Timeout
+        guard = 0
+        while st.status != 'done' and st.pending[0] != 'lock.acquire':
+            self.sched.step(name, force=True)             # sleep, whatever else the loop does
+            guard += 1
+            if guard > 8:
+                raise common.HarnessError('polling loop of %s does not come back to an attempt' % name)
+        if st.status == 'done' and st.exc is not None and name not in self.errors:
+            self.errors[name] = type(st.exc).__name__
+        return True
+
     def step(self, tok):
+        """One turn.  Returns the label of the access executed, or None when the token does not apply."""
         sched = self.sched
         if tok.startswith('K'):
             self.clock.units += int(tok[1:])
-            return
-        name = 'S' if tok == 'S' else 'r' + tok
+            return '-'
+        if tok.startswith('X') or tok.startswith('P'):
+            return '-' if self.poll(int(tok[1:]), tok.startswith('X')) else None
+        name = 'S' if tok in ('S', 'S0') else 'r' + tok
         st = sched.threads[name]
         if name == 'S' and st.status != 'done' and st.pending[0] == 'sweep.start':
             sched.step('S')
+        lab = self.label(sched.pending(name)) if sched.enabled(name) else '-'
         sched.step(name)
         inside = [n for n, t in sched.threads.items()
                   if self.holders.get(self.lockpath) and self.holders[self.lockpath][0] == n]
@@ -265,12 +342,7 @@ class FileRun:
             self.errors[name] = type(st.exc).__name__
             if isinstance(st.exc, (common.HarnessError, S._Abandoned)):
                 raise common.HarnessError('managed thread %s: %r' % (name, st.exc))
-
-    def _pc(self, name, table):
-        st = self.sched.threads[name]
-        if st.status == 'done':
-            return 'crashed' if st.exc is not None else str(st.result)
-        return table.get(st.pending[0], '?' + st.pending[0])
+        return lab
 
     def file_state(self):
         if self._fs_cache is None:
@@ -290,27 +362,49 @@ class FileRun:
         u = (exp - RAM.BASE).total_seconds() / RAM.UNIT
         return '%s:%s' % (data.get('n'), int(u) if u == int(u) else u)
 
-    def snapshot(self):
+    def observation(self):
         sched = self.sched
         h = self.holders.get(self.lockpath)
-        reqs = ['r%d' % i for i in range(self.n)]
-        unfinished = any(not sched.done(r) for r in reqs)
-        any_enabled = any(sched.enabled(r) for r in reqs)
+        out = [0 if not h else (1001 if h[0] == 'S' else 1 + int(h[0][1:]) if h[0].startswith('r') else 999)]
+        f = self.file_state()
+        if f == 'A':
+            out.append(0)
+        elif f == 'E':
+            out.append(1)
+        elif f.startswith('?'):
+            out += [3]
+        else:
+            v, e = f.split(':')
+            out += [2, int(v) if v != 'None' else 0, int(float(e))]
+        out.append(1 if self.lost else 0)
+        for i in range(self.n):
+            st = sched.threads['r%d' % i]
+            if st.status != 'done':
+                out.append(0)
+            elif st.exc is not None:
+                out.append(4)
+            else:
+                out.append({'done': 1, 'gone': 2, 'failed': 3}.get(st.result, 4))
+        sw = sched.threads['S']
+        out += [1 if sw.status == 'done' else 0, self.sweeps]
+        return out
+
+    def final(self):
+        sched = self.sched
+        h = self.holders.get(self.lockpath)
         sweeper_moves = bool(h and h[0] == 'S' and sched.enabled('S'))
-        dead = unfinished and not any_enabled and not sweeper_moves
-        return 'F=%s;C=%s;P=%s;W=%s;L=%d;D=%d' % (
-            h[0] if h else '-', self.file_state(), ','.join(self._pc(r, REQ_PC) for r in reqs),
-            self._pc('S', SWEEP_PC), 1 if self.lost else 0, 1 if dead else 0)
+        return [1 if (not sched.done('r%d' % i) and not sched.enabled('r%d' % i) and not sweeper_moves) else 0
+                for i in range(self.n)]
 
     def finish(self, snaps=None):
         extra = []
         guard = 0
         sw = self.sched.threads['S']
         while sw.status != 'done' and sw.pending[0] != 'sweep.start' and self.sched.enabled('S'):
-            self.step('S')
+            lab = self.step('S')
             extra.append('S')
             if snaps is not None:
-                snaps.append(self.snapshot())
+                snaps.append((self.observation(), lab))
             guard += 1
             if guard > 40:
                 raise common.HarnessError('sweep does not terminate')
@@ -318,20 +412,20 @@ class FileRun:
             progressed = False
             for i in range(self.n):
                 while self.sched.enabled('r%d' % i):
-                    self.step(str(i))
+                    lab = self.step(str(i))
                     extra.append(str(i))
                     if snaps is not None:
-                        snaps.append(self.snapshot())
+                        snaps.append((self.observation(), lab))
                     progressed = True
                     guard += 1
                     if guard > 400:
                         raise common.HarnessError('request threads do not terminate')
             # a sweep that was waiting for the lock can go on now
             while sw.status != 'done' and sw.pending[0] != 'sweep.start' and self.sched.enabled('S'):
-                self.step('S')
+                lab = self.step('S')
                 extra.append('S')
                 if snaps is not None:
-                    snaps.append(self.snapshot())
+                    snaps.append((self.observation(), lab))
                 progressed = True
                 guard += 1
                 if guard > 400:
@@ -346,6 +440,7 @@ class FileRun:
         h = self.holders.get(self.lockpath)
         return {'max_occ': self.max_occ, 'lost': self.lost, 'lost_why': self.lost_why, 'saves': self.saves,
                 'unlocked_ops': list(self.unlocked_ops), 'errors': dict(self.errors),
+                'timeout_leak': list(self.timeout_leak),
                 'held_by': [h[0]] if h else [],
                 'blocked': [r for r in reqs if not sched.done(r) and not sched.enabled(r)],
                 'unfinished': [r for r in reqs if not sched.done(r)],
@@ -357,6 +452,7 @@ class FileRun:
         try:
             self.sched.close()
         finally:
+            self.locking.datetime = self.saved_locking_datetime
             for k, v in self.saved.items():
                 if v is _MISSING:
                     self.sessions.__dict__.pop(k, None)
@@ -369,22 +465,76 @@ _MISSING = object()
 
 
 def run_case(case):
-    run = FileRun(case['n'], case.get('file'))
+    """Returns (o0, [(tok, observation, label)…], final, observations)."""
+    run = FileRun(case['n'], case.get('file'), case.get('lt'))
     try:
+        o0 = run.observation()
+        trace = []
+        for t in case['sched']:
+            lab = run.step(t)
+            if lab is None:                     # an X / P token that does not apply here
+                continue
+            trace.append((t, run.observation(), lab))
         snaps = []
-        toks = list(case['sched'])
-        for t in toks:
-            run.step(t)
-            snaps.append(run.snapshot())
-        toks = toks + run.finish(snaps)
-        return snaps, toks, run.observations()
+        extra = run.finish(snaps)
+        trace += [(t, o, lab) for t, (o, lab) in zip(extra, snaps)]
+        return o0, trace, run.final(), run.observations()
     finally:
         run.close()
 
 
-def model_line(case, toks):
+def run_policy(case, order, preempt, prefix=(), sweeps=1, limit=200):
+    """Adaptive schedule (see c13_ramn.run_policy); `prefix` tokens run first."""
+    run = FileRun(case['n'], case.get('file'), case.get('lt'))
+    try:
+        o0 = run.observation()
+        trace = []
+        for t in prefix:
+            lab = run.step(t)
+            trace.append((t, run.observation(), lab))
+
+        def idle():
+            sw = run.sched.threads['S']
+            return sw.status == 'done' or sw.pending[0] == 'sweep.start'
+
+        def finished(a):
+            if a == 'S':
+                return run.sched.done('S') or (run.sweeps >= sweeps and idle())
+            return run.sched.done('r' + a)
+
+        def runnable(a):
+            return not finished(a) and run.sched.enabled('S' if a == 'S' else 'r' + a)
+        cur, k = None, 0
+        while k < limit:
+            if k in preempt and runnable(preempt[k]):
+                cur = preempt[k]
+            if cur is None or not runnable(cur):
+                cands = [a for a in order if runnable(a)]
+                if not cands:
+                    break
+                cur = cands[0]
+            lab = run.step(cur)
+            trace.append((cur, run.observation(), lab))
+            k += 1
+        snaps = []
+        extra = run.finish(snaps)
+        trace += [(t, o, lab) for t, (o, lab) in zip(extra, snaps)]
+        return o0, trace, run.final(), run.observations()
+    finally:
+        run.close()
+
+
+def nats(l):
+    return '.'.join(str(int(x)) for x in l) if l else '-'
+
+
+def model_line(case, o0, trace, final, fuel=8):
     f = case.get('file')
-    return 'file %s %d %s' % ('A' if f is None else '%d:%d' % tuple(f), case['n'], ','.join(toks) or '-')
+    lt = (list(case.get('lt') or []) + [False] * case['n'])[:case['n']]
+    # an unsuccessful poll is a turn of that request which changes nothing
+    tr = '|'.join('%s@%s@%s' % (t[1:] if t.startswith('P') else t, nats(o), lab) for t, o, lab in trace) or '-'
+    return 'fileT %s %s %d %d %s %s %s' % ('A' if f is None else '%d:%d' % tuple(f), nats([1 if x else 0 for x in lt]),
+                                           case['n'], fuel, nats(o0), tr, nats(final))
 
 
 INITS = [('live', [5, 100], []), ('expired', [5, 0], ['K3']), ('expiring', [5, 1], []), ('absent', None, [])]
@@ -406,8 +556,35 @@ def gen_random(rng):
             a = rng.choice(actors)
         elif r < 0.92:
             a = 'S'
-        else:
+        elif r < 0.96:
             toks.append(rng.choice(['K1', 'K1', 'K2', 'K3']))
             continue
+        else:
+            toks.append(rng.choice(['X', 'X', 'P']) + rng.choice(actors))
+            continue
         toks += [a] * rng.choice([1, 1, 2, 2, 3, 4, 6])
-    return {'kind': 'fsched', 'n': n, 'file': file0, 'sched': toks[:max(L, len(prefix))], 'init': name}
+    lt = [rng.random() < 0.5 for _ in range(n)]
+    return {'kind': 'fsched', 'n': n, 'file': file0, 'sched': toks[:max(L, len(prefix))], 'init': name, 'lt': lt}
+
+
+def gen_timeout(rng):
+    """Targeted at the lock_timeout paths: a request (or the sweep) holds the lock, the others poll
+    and time out at every point of the holder's locked region."""
+    n = rng.choice([2, 3])
+    name, file0, prefix = rng.choice(INITS[:3])
+    actors = [str(i) for i in range(n)]
+    rng.shuffle(actors)
+    holder = rng.choice([actors[0], 'S'])
+    toks = list(prefix) + actors                         # everybody passes __init__
+    toks += [holder] * rng.randint(1 if holder != 'S' else 2, 5)        # the holder gets into its locked region
+    waiting = [a for a in actors if a != holder]
+    for a in waiting:
+        toks += [a] * rng.choice([1, 2])                 # the others arrive at their acquire
+    for a in waiting:
+        toks.append(rng.choice(['X', 'X', 'P']) + a)
+        if rng.random() < 0.4:
+            toks += [holder] * rng.randint(1, 3)
+    if rng.random() < 0.5:
+        toks.append('X' + rng.choice(waiting))
+    return {'kind': 'fsched', 'n': n, 'file': file0, 'sched': toks, 'init': name,
+            'lt': [rng.random() < 0.8 for _ in range(n)]}
